@@ -50,6 +50,13 @@ def load_known():
     return out
 
 
+def load_baseline():
+    p = os.path.join(VERIF, 'contracts', 'baseline_obligations.json')
+    if not os.path.exists(p):
+        return {}
+    return json.load(open(p))
+
+
 def _work(args):
     key, seed, timeout_ms, known = args
     from engine import verify
@@ -96,6 +103,8 @@ def run_check(prop, tier='quick', seed=0, jobs=None, verbose=False):
 
 
 def finish(prop, tier, seed, results, known, wall, verbose):
+    baseline = load_baseline()
+    seen_names = set()
     viol = []
     undecided = []
     known_hits = []
@@ -119,6 +128,7 @@ def finish(prop, tier, seed, results, known, wall, verbose):
         if not mine and not c.trusted:
             undecided.append('%s: zero obligations generated for %s (vacuous)' % (r['key'], prop))
         for o in mine:
+            seen_names.add(o['name'])
             n_obl += 1
             per_kind[o['kind']] = per_kind.get(o['kind'], 0) + 1
             if o['status'] == 'discharged':
@@ -127,6 +137,13 @@ def finish(prop, tier, seed, results, known, wall, verbose):
                 n_dis += 1
                 known_hits.append(o)
             elif o['status'] == 'failed':
+                viol.append(o)
+            elif o['name'] in baseline.get(prop, ()) :
+                # an obligation that is discharged on the pinned tree (contracts/baseline_obligations.json) is no
+                # longer discharged: reported as a violation with the solver's reason (the guidance's minimum
+                # criterion); the replay decides whether a failing input is known
+                o = dict(o)
+                o['detail'] = 'regressed: discharged on the pinned tree, now %s (%s)' % (o['status'], o['detail'])
                 viol.append(o)
             else:
                 undecided.append('%s: %s %s' % (o['name'], o['status'], o['detail']))
@@ -177,6 +194,19 @@ def finish(prop, tier, seed, results, known, wall, verbose):
         code = 2
         for u in undecided:
             print('UNDECIDED: ' + u)
+    exp = baseline.get(prop)
+    if exp is not None and code == 0:
+        missing = sorted(set(exp) - seen_names)
+        if len(missing) > 0 and os.environ.get('VERIF_WRITE_BASELINE') != '1':
+            # obligations of the pinned tree that were not even generated: a dropped clause / loop contract or an
+            # extraction change -- never a silent pass
+            code = 2
+            for mname in missing[:10]:
+                print('UNDECIDED: obligation of the baseline was not generated: ' + mname)
+    if os.environ.get('VERIF_WRITE_BASELINE') == '1' and code == 0:
+        baseline[prop] = sorted(seen_names)
+        with open(os.path.join(VERIF, 'contracts', 'baseline_obligations.json'), 'w') as f:
+            json.dump(baseline, f, indent=0, sort_keys=True)
     if verbose or code != 0:
         for f in funcs:
             print('  %-70s paths=%d obligations=%d %.1fs' % (f['contract'], f['paths'], f['obligations'], f['secs']))
